@@ -17,6 +17,7 @@ import (
 	"github.com/buildbarn/bb-storage/pkg/blobstore/buffer"
 	"github.com/buildbarn/bb-storage/pkg/blobstore/slicing"
 	"github.com/buildbarn/bb-storage/pkg/digest"
+	"github.com/buildbarn/bb-storage/pkg/util"
 	"google.golang.org/grpc/codes"
 	"google.golang.org/grpc/status"
 
@@ -169,16 +170,20 @@ type recBackend struct {
 	putLate bool     // a failing Put consumes all data and fails at commit time, after the source was released
 	sh      *streams // shared with the other replica
 	waits   int      // late Put failures that gave up waiting for the release of the source (should stay 0)
-	mu      sync.Mutex
-	store   map[int][]byte
-	cnt     map[string]int
-	faults  map[string]codes.Code
-	log     []call
+
+	hangPut  map[int]bool // Put calls (by index) that block until their context is done and return its status
+	blocked  int          // hanging Puts that have consumed their data and are waiting
+	putsDone int          // Put calls that returned
+	mu       sync.Mutex
+	store    map[int][]byte
+	cnt      map[string]int
+	faults   map[string]codes.Code
+	log      []call
 }
 
 func newRecBackend(name string, u *universe, late, stream, putLate bool, sh *streams) *recBackend {
 	return &recBackend{name: name, u: u, late: late, stream: stream, putLate: putLate, sh: sh,
-		store: map[int][]byte{}, cnt: map[string]int{}, faults: map[string]codes.Code{}}
+		store: map[int][]byte{}, cnt: map[string]int{}, faults: map[string]codes.Code{}, hangPut: map[int]bool{}}
 }
 
 // okBuffer is what Get returns for data it holds.
@@ -260,12 +265,34 @@ func (v view) GetFromComposite(ctx context.Context, parent, child digest.Digest,
 	return out
 }
 
-func (v view) Put(ctx context.Context, d digest.Digest, in buffer.Buffer) error {
+func (v view) Put(ctx context.Context, d digest.Digest, in buffer.Buffer) (result error) {
 	b := v.b
 	k := b.u.id(d)
 	b.mu.Lock()
 	li, ferr := b.begin("put", v.via, []int{k})
+	hang := ferr == nil && b.hangPut[b.log[li].idx]
 	b.mu.Unlock()
+	defer func() {
+		b.mu.Lock()
+		b.putsDone++
+		b.mu.Unlock()
+	}()
+	if hang {
+		// a slow replica: it has received the data and is still writing when
+		// its context is cancelled (by the caller, or by the errgroup because
+		// the other replica failed); it gives up with the context's status
+		_, rerr := in.ToByteSlice(1 << 20)
+		b.mu.Lock()
+		b.blocked++
+		b.mu.Unlock()
+		<-ctx.Done()
+		code := status.Code(util.StatusFromContext(ctx))
+		b.mu.Lock()
+		b.log[li].inputErr = rerr != nil
+		b.log[li].fault = code
+		b.mu.Unlock()
+		return status.Errorf(code, "fault %s put %d", b.name, b.log[li].idx)
+	}
 	if ferr != nil && !b.putLate {
 		// early failure: the data is not even looked at. (Whether the buffer
 		// was readable is still noted for the oracle: error buffers say so
